@@ -139,6 +139,59 @@ func (w *WaitGroup) Wait() {
 	rt.RaceAcquire(unsafe.Pointer(&w.tok))
 }
 
+// Cond mirrors sync.Cond on top of channels of the controlled runtime: a waiter parks on a channel of its own, Signal
+// closes the oldest one, Broadcast all of them.
+type Cond struct {
+	L       sync.Locker
+	real    *sync.Cond
+	waiters []chan struct{}
+}
+
+func NewCond(l sync.Locker) *Cond { return &Cond{L: l, real: sync.NewCond(l)} }
+
+func (c *Cond) native() *sync.Cond {
+	if c.real == nil {
+		c.real = sync.NewCond(c.L)
+	}
+	return c.real
+}
+
+func (c *Cond) Wait() {
+	if !rt.Active() {
+		c.native().Wait()
+		return
+	}
+	ch := make(chan struct{})
+	c.waiters = append(c.waiters, ch)
+	c.L.Unlock()
+	rt.Recv(ch)
+	c.L.Lock()
+}
+
+func (c *Cond) Signal() {
+	if !rt.Active() {
+		c.native().Signal()
+		return
+	}
+	if len(c.waiters) > 0 {
+		ch := c.waiters[0]
+		c.waiters = c.waiters[1:]
+		rt.Close(ch)
+	}
+}
+
+func (c *Cond) Broadcast() {
+	if !rt.Active() {
+		c.native().Broadcast()
+		return
+	}
+	ws := c.waiters
+	c.waiters = nil
+	for _, ch := range ws {
+		rt.Close(ch)
+	}
+}
+
 // Once mirrors sync.Once (no scheduling point; the code under test does not use it concurrently).
 type Once = sync.Once
 
